@@ -11,6 +11,7 @@ import (
 	"time"
 
 	databasev1 "github.com/apache/skywalking-banyandb/api/proto/banyandb/database/v1"
+	measurev1 "github.com/apache/skywalking-banyandb/api/proto/banyandb/measure/v1"
 	modelv1 "github.com/apache/skywalking-banyandb/api/proto/banyandb/model/v1"
 	"github.com/apache/skywalking-banyandb/banyand/internal/verif/sidxsim"
 	"github.com/apache/skywalking-banyandb/banyand/internal/verif/simmeta"
@@ -25,6 +26,7 @@ func TestSim(t *testing.T) {
 		{Name: "stream-order", Weight: 3, Run: runStream},
 		{Name: "measure-order", Weight: 2, Run: runMeasure},
 		{Name: "sidx-steps", Weight: 2, Run: sidxsim.Run("ordered-window", true)},
+		{Name: "cluster-measure-order", Weight: 1, Run: runMeasureCluster},
 	})
 }
 
@@ -335,7 +337,20 @@ func clipInts(v []int64) string {
 	return s
 }
 
-func runMeasure(e *simcore.Env, tp *simcore.Tape) {
+// mnode is what the measure scenario needs from a standalone node or a cluster.
+type mnode interface {
+	WriteMeasure([]*measurev1.WriteRequest) ([]*measurev1.WriteResponse, error)
+	QueryMeasure(*measurev1.QueryRequest) (*measurev1.QueryResponse, error)
+	Stop()
+}
+
+func runMeasure(e *simcore.Env, tp *simcore.Tape) { runMeasureOn(e, tp, false) }
+
+// runMeasureCluster: the same windows over 1 liaison + 1-4 data nodes (simnet): every data node returns its sorted
+// rows, the liaison merges them (distributed plan) and applies offset/limit.
+func runMeasureCluster(e *simcore.Env, tp *simcore.Tape) { runMeasureOn(e, tp, true) }
+
+func runMeasureOn(e *simcore.Env, tp *simcore.Tape, cluster bool) {
 	synctest.Test(e.T, func(*testing.T) {
 		knobDesc, knobRestore := simknobs.Draw(tp, "measure")
 		defer knobRestore()
@@ -347,7 +362,32 @@ func runMeasure(e *simcore.Env, tp *simcore.Tape) {
 		qpFlags, qpTag := simnode.QueryPath(tp.Choose, "measure")
 		flags = append(flags, qpFlags...)
 		_ = qpTag
-		n, err := simnode.Boot(repo, e.Dir, simnode.Engines{Measure: true}, flags)
+		var n mnode
+		var err error
+		where := "measure"
+		if cluster {
+			where = "cluster"
+			nData := tp.Range(1, 4)
+			if nData >= 2 && tp.Bool(1, 3) {
+				s.Replicas = uint32(tp.Range(1, min(2, nData-1)))
+			}
+			repo = simmeta.New()
+			s.Install(repo)
+			lflags := append(append([]string(nil), flags...), "--measure-sync-interval=1s")
+			var cl *simnode.Cluster
+			if cl, err = simnode.BootCluster(repo, e.Dir, nData, simnode.Engines{Measure: true}, flags, lflags); err == nil {
+				n = cl
+			}
+			e.Event("cluster: %d data nodes, %d shards, %d replicas", nData, s.Shards, s.Replicas)
+			if nData > 1 {
+				e.Probe("reach.rows_spread_over_data_nodes")
+			}
+		} else {
+			var sn *simnode.Node
+			if sn, err = simnode.Boot(repo, e.Dir, simnode.Engines{Measure: true}, flags); err == nil {
+				n = sn
+			}
+		}
 		if err != nil {
 			e.Fail("boot", "boot-failed", "boot: %v", err)
 			return
@@ -383,6 +423,11 @@ func runMeasure(e *simcore.Env, tp *simcore.Tape) {
 		}
 		if len(m.Rows) == 0 {
 			return
+		}
+		if cluster { // the liaison's write queue must have reached the data nodes before windows are compared
+			time.Sleep(60 * time.Second)
+			synctest.Wait()
+			e.AddSim(60 * time.Second)
 		}
 		var tsOf []int64
 		for _, r := range m.Rows {
@@ -433,7 +478,7 @@ func runMeasure(e *simcore.Env, tp *simcore.Tape) {
 				e.Probe("reach.offset_inside_result")
 			}
 			if cls, msg := checkWindow(full, got, q.asc, q.offset, q.limit); cls != "" {
-				e.Fail("ordered-window", "measure:"+cls+":by-time:"+qpTag, "measure query %d (%s): %s\n  returned writes: %v", qi, q, msg, clipInts(got))
+				e.Fail("ordered-window", where+":"+cls+":by-time:"+qpTag, "measure query %d (%s): %s\n  returned writes: %v", qi, q, msg, clipInts(got))
 				return
 			}
 		}
